@@ -166,9 +166,16 @@ def short_worker(ctx, job):
                 singles.append({"step": i, "short": t, "sysname": st["sys"]})
     sets = [[]] + [[f] for f in singles]
     if ctx.tier != "quick":
-        wr_singles = [f for f in singles if f["sysname"] in ("write", "pwrite64")]
+        # two short answers per execution; when an operation makes very many write calls (async-std splits 1 MiB into
+        # 8 KiB writes) the pairs are formed over the first 5 and last 5 affected calls only (reported in the evidence)
+        steps_with_short = sorted({f["step"] for f in singles})
+        keep = set(steps_with_short[:5] + steps_with_short[-5:])
+        pool = [f for f in singles if f["step"] in keep]
+        if len(keep) < len(steps_with_short):
+            res["extra"]["short_pairs_restricted_to_first_and_last_5_calls"] = 1
+        wr_singles = [f for f in pool if f["sysname"] in ("write", "pwrite64")]
         for a in wr_singles:
-            for b in singles:
+            for b in pool:
                 if b["step"] > a["step"]:
                     sets.append([a, b])
     for faults in sets:
